@@ -721,6 +721,11 @@ type Run struct {
 	Force    bool          // --force
 	DryRun   bool          // delete-unused --dry-run
 	Ticker   time.Duration // uploader interval (verif hook), 0 = default 5 minutes
+	// manual merging of indexes (docs/purge.md, --chunk-index): the command runs on context Main only (Alone:
+	// no extra context is passed) and numbers its chunks after ChunkStart
+	Main       int
+	Alone      bool
+	ChunkStart int
 }
 
 func (w *World) options(r Run) []core.PurgeOption {
@@ -740,8 +745,11 @@ func (w *World) options(r Run) []core.PurgeOption {
 	if r.DryRun {
 		opts = append(opts, core.WithPurgeDryRun(true))
 	}
-	if extra := w.Extra(); len(extra) > 0 {
+	if extra := w.Extra(); len(extra) > 0 && !r.Alone {
 		opts = append(opts, core.WithPurgeExtraContexts(extra))
+	}
+	if r.ChunkStart > 0 {
+		opts = append(opts, core.WithPurgeIndexChunkStart(r.ChunkStart))
 	}
 	if r.Chunk > 0 {
 		opts = append(opts, core.WithPurgeIndexChunkSize(r.Chunk))
@@ -768,7 +776,7 @@ func (o Outcome) String() string {
 // BuildIndex is `datamon purge build-reverse-lookup`
 func (w *World) BuildIndex(r Run) (*core.PurgeIndex, Outcome) {
 	opts := w.options(r)
-	stores := w.Purge[0].Stores
+	stores := w.Purge[r.Main].Stores
 	var out Outcome
 	if out.LockErr = core.PurgeLock(stores, opts...); out.LockErr != nil {
 		return nil, out
@@ -782,7 +790,7 @@ func (w *World) BuildIndex(r Run) (*core.PurgeIndex, Outcome) {
 // DeleteUnused is `datamon purge delete-unused`
 func (w *World) DeleteUnused(r Run) (*core.PurgeBlobs, Outcome) {
 	opts := w.options(r)
-	stores := w.Purge[0].Stores
+	stores := w.Purge[r.Main].Stores
 	var out Outcome
 	if out.LockErr = core.PurgeLock(stores, opts...); out.LockErr != nil {
 		return nil, out
